@@ -21,14 +21,14 @@ Print Assumptions C19_pool_invariant.
    function of configuration and request alone, from any starting state *)
 Definition C19_events_statement : Prop :=
   forall O cfg en req s1 s2,
-    cfg_has_panic cfg = false -> route_request O (d_table cfg) req <> RPanic ->
+    routed_request cfg req -> cfg_has_panic cfg = false -> route_request O (d_table cfg) req <> RPanic ->
     exists a b, serve O cfg en req s1 = Done a /\ serve O cfg en req s2 = Done b /\
                 skipn (length (slog s1)) (slog a) = skipn (length (slog s2)) (slog b).
 Theorem C19_events : C19_events_statement.
 Proof.
-  intros O cfg en req s1 s2 Hp Hn.
-  destruct (serve_events O cfg en req s1 Hp Hn) as (a & Ea & La).
-  destruct (serve_events O cfg en req s2 Hp Hn) as (b & Eb & Lb).
+  intros O cfg en req s1 s2 Hr Hp Hn.
+  destruct (serve_events O cfg en req s1 Hr Hp Hn) as (a & Ea & La).
+  destruct (serve_events O cfg en req s2 Hr Hp Hn) as (b & Eb & Lb).
   exists a, b. repeat split; auto. rewrite La, Lb.
   rewrite !skipn_app, !skipn_all, !PeanoNat.Nat.sub_diag. reflexivity.
 Qed.
